@@ -142,7 +142,7 @@ static inline std::vector<ScnSpec> scenario_specs(int size) {
         "t://1.2.3.4/a/b/..", "t://[::1]/a/b/../..", "s://1.2.3.4/x", "t:/.//x", "t:/a/..//x", "t:/a/b/..", "//1.2.3.4/a/b/..", "//[::2]/a/./b/../..", "//g/a/b/..",
         "/a/b/..", "/a/b/../..", "/a/..//x", "a/b/..", "a/b/../..", "..//x", "./..//x", "../..//x/y/.." };
     refs.insert(refs.end(), rx.begin(), rx.end());
-    if (size >= 1) for (auto b2 : { "s:/a", "s:/", "s://h", "s://1.2.3.4:1/a/b/c/d" }) bases.push_back(b2);
+    if (size >= 1) for (auto b2 : { "s:/a", "s:/", "s://h", "s://1.2.3.4:1/a/b/c/d", "s://h/a/./b/../c/d", "s:/a/../b/./c", "s:a/./b/.." }) bases.push_back(b2);
     for (auto &r : refs) for (auto &b : bases) for (int o = 0; o < 2; o++) add(K_RESOLVE, r, b, o, 0);
     std::vector<Str> srcs = { "s://h/a/b/c", "s://h/a", "s://h", "s://h/", "s:/a/b", "s:a/b", "s:", "s://u@[::1]:1/x", "t://1.2.3.4/x", "s://h/a/b?q#f", "s://h//x", "s:/c:d", "s:c:d/e", "s://g/a/../b", "a/b", "s://h/a/b/c/d/e/f",
         "s://h/a//b", "s://h/a/b//", "s:/a//b", "s:/", "s:/a/", "s://h/a/", "s:/a/b/", "s://u@[::1]:1/", "s://u@[::1]:1", "t://1.2.3.4/x//y", "t://1.2.3.4/x//", "s:/a/c:d", "s://h/c:d" };
